@@ -311,7 +311,7 @@ def validate_traces(prop, wd, traces):
 class Recorder:
     """Wraps np_fns.while_loop_winfo: the original is called; the cond_fun / body_fun handed to the returned
     while function are wrapped so that each evaluation inside the real loop is logged."""
-    BAND = 1e-6
+    BAND = 1e-5
 
     def __init__(self):
         self.traces = []
@@ -375,17 +375,23 @@ class Recorder:
     @classmethod
     def _test(cls, alg, state, tol):
         """Harness-side recomputation of the numeric test: 'T', 'F' or 'E' (inside the band: either)."""
+        # stopping tests of the tree under test (since fix 683bfc0): residual > tol * ||A q_1|| with
+        #   lanczos: ||A q_1|| = sqrt(|diag[0]|^2 + subdiag[1]^2),  arnoldi: sqrt(|H[0,0]|^2 + H[1,0]^2)
         if alg == "lanczos":
-            _, _, subdiag, i = state
+            _, diag, subdiag, i = state
             i = int(i)
             val = np.asarray(subdiag[..., i - 1].real, dtype=np.float64)
-            ref = tol * np.asarray(subdiag[..., 1].real, dtype=np.float64)
+            scale = np.sqrt(np.abs(np.asarray(diag[..., 0]).astype(np.complex128)) ** 2
+                            + np.asarray(subdiag[..., 1].real, dtype=np.float64) ** 2)
+            ref = tol * scale
             ctr = i
         else:
             _, H, idx, norm = state
             ctr = int(idx)
             val = np.asarray(norm, dtype=np.float64).reshape(-1)
-            ref = tol * np.asarray(H[:, 1, 0].real, dtype=np.float64)
+            scale = np.sqrt(np.abs(np.asarray(H[:, 0, 0]).astype(np.complex128)) ** 2
+                            + np.asarray(H[:, 1, 0].real, dtype=np.float64) ** 2)
+            ref = tol * scale
         hi = val > ref + cls.BAND * np.abs(ref)
         lo = val < ref - cls.BAND * np.abs(ref)
         lo = lo | ((val == 0) & (ref == 0))        # 0 > 0 is false whatever the rounding
@@ -536,8 +542,8 @@ def ref_mgs_loss(A_t, v_t, cols):
 
 def gate(hs, kdim, n, tol, sA, detectable, s_obs, cap):
     """Floating-point visibility of a breakdown, judged on the reference residual norms hs[j-1] = h_(j+1,j) of the
-    run on the *cast* data (complex128 arithmetic, two re-orthogonalisation passes).  cola's tests are relative to the
-    first residual hs[0].  Returns (effective KDim, detectable):
+    run on the *cast* data (complex128 arithmetic, two re-orthogonalisation passes).  cola's tests are relative to
+    ||A q_1||.  Returns (effective KDim, detectable):
       - the exact breakdown at KDim counts as detectable only if the reference residual there is 100x below the
         threshold (rounding the start vector to float32 leaves components outside the invariant subspace which
         the Krylov process amplifies);
@@ -545,13 +551,21 @@ def gate(hs, kdim, n, tol, sA, detectable, s_obs, cap):
         Krylov space is numerically invariant there and s_obs is taken as the effective KDim."""
     if hs is None or kdim is None or not len(hs):
         return kdim, detectable
-    ref = hs[0] if kdim > 1 else sA
+    # cola's tests are relative to ||A q_1|| (fix 683bfc0).  For an eigenvector start with eigenvalue 0 that scale is
+    # itself round-off; such a start is still expected to stop (scale floor 1e-3 ||A||), so that it stays visible
+    scale = getattr(hs, "scale", hs[0])
+    ref = scale if kdim > 1 else max(scale, 1e-3 * sA)
     if kdim < n and kdim <= len(hs) and not hs[kdim - 1] <= 1e-2 * tol * ref:
         detectable = False
-    amb = [j + 1 for j in range(1, min(len(hs), kdim)) if hs[j] <= 1e2 * tol * hs[0]]
+    amb = [j + 1 for j in range(1, min(len(hs), kdim)) if hs[j] <= 1e2 * tol * scale]
     if amb and amb[0] <= s_obs < min(cap, kdim):
         return s_obs, True
     return kdim, detectable
+
+
+class Residuals(list):
+    """reference residual norms with the scale ||A q_1|| the stopping tests are relative to"""
+    scale = 0.0
 
 
 def ref_for(A_t, v_t, kdim, n, jmax, thr, trust):
@@ -559,7 +573,10 @@ def ref_for(A_t, v_t, kdim, n, jmax, thr, trust):
     Ac = np.asarray(A_t, dtype=np.complex128)
     sA = float(np.abs(Ac).sum(1).max())
     steps = min(n, max(jmax, kdim if (trust and kdim is not None) else jmax))
-    Qr, hs = ref_krylov(Ac, np.asarray(v_t, dtype=np.complex128), steps)
+    vc = np.asarray(v_t, dtype=np.complex128)
+    Qr, hs = ref_krylov(Ac, vc, steps)
+    hs = Residuals(hs)
+    hs.scale = float(np.linalg.norm(Ac @ (vc / np.linalg.norm(vc))))
     j = 1
     lim = min(Qr.shape[1], jmax, kdim if (trust and kdim is not None) else jmax)
     while j < lim and hs[j - 1] > thr * sA:
